@@ -27,11 +27,13 @@ def gen_ops(rng, heavy):
     ops = []
     live, dead = {0: {}, 1: {}, 2: {}}, {0: {}, 1: {}, 2: {}}
     budget = 6 * 1024 * 1024
-    t = 117_000_000_000 + rng.below(10 ** 6) * 4
+    # the clock base: usually a present-day value; sometimes one where the decimal length of the seconds field changes within the case
+    # (9 s -> 10 s, 99 999 999 s -> 100 000 000 s): the SQLite backend stores stamps as text
+    t = rng.choice([117_000_000_000 + rng.below(10 ** 6) * 4] * 4 + [8_000 + rng.below(500) * 4, 99_000 + rng.below(250) * 4, 99_999_990_000 + rng.below(2500) * 4, 999_999_000 + rng.below(250) * 4])
     def stamp():
         nonlocal t
         t += rng.choice([4, 4, 1000, 60000])
-        return pack(t if rng.chance(4, 5) else t - rng.below(10 ** 6) * 4, rng.choice([0, 1, 2, 3, 9, 10, 15, 16, 255, 0xABC, 65535]), rng.choice([0, 1, 2, 9, 10, 11, 16, 100, 255]))
+        return pack(t if rng.chance(4, 5) else max(4, t - rng.below(10 ** 6) * 4), rng.choice([0, 1, 2, 3, 9, 10, 15, 16, 255, 0xABC, 65535]), rng.choice([0, 1, 2, 9, 10, 11, 16, 100, 255]))
     def newid():
         return rng.choice(IDS + [rng.below(2 ** 64), rng.below(5)])
     def data():
